@@ -265,8 +265,13 @@ def check_reordering(ctx, rep):
         good = None
         for y in ups:
             a = callee_info(y)["args"]
-            cell, pos = canon(a[0]), canon(a[1])
-            okargs = pretty(cell) == "cells_[cellInd]" and pos[0] == "call" and pos[1].endswith("rowY") and "regions_[i].row" in pretty(pos)
+            cell, pos = expand_locals(ctx, f, canon(a[0])), expand_locals(ctx, f, canon(a[1]))
+            pids = {q.get("id") for q in f.params}
+            okcell = cell[0] == "index" and cell[1][0] == "field" and cell[1][1].endswith("RowReordering::cells_") and cell[2][0] == "var" and cell[2][1] in pids
+            okpos = pos[0] == "call" and pos[1].endswith("rowY") and any(
+                t[0] == "field" and str(t[1]).endswith("::row") and t[2][0] == "index" and t[2][1][0] == "field" and t[2][1][1].endswith("RowReordering::regions_")
+                for t in subterms(pos))
+            okargs = okcell and okpos
             yn = g.node_for(y)
             if okargs and g.dominates(yn, n):
                 # no extra condition between the update and the evaluation
@@ -289,7 +294,9 @@ def check_reordering(ctx, rep):
         for l in [y for y in walk(o.body) if y.get("kind") == "CXXForRangeStmt"]:
             var = inner(list(inner(l))[6])[0]
             rv = var.get("_rangevar")
-            if rv is None or "order_[rowInd]" not in pretty(canon(rv)):
+            rvc = canon(rv) if rv is not None else ("none",)
+            opids = {q.get("id") for q in o.params}
+            if not (rvc[0] == "index" and rvc[1][0] == "field" and rvc[1][1].endswith("RowReordering::order_") and rvc[2][0] == "var" and rvc[2][1] in opids):
                 continue
             body = list(inner(l))[7]
             ups = [y for y in walk(body) if y.get("kind") == "CXXMemberCallExpr" and callee_info(y)["qname"] == CQ + "IncrNetModel::updateCellPos"
